@@ -12,24 +12,30 @@ EXTENDS LieselGraph, TraceBatch, TLC, Bags
 RECURSIVE JoinS(_, _)
 JoinS(args, i) == IF i > Len(args) THEN ""
                   ELSE (IF i > 1 THEN "," ELSE "") \o args[i] \o JoinS(args, i + 1)
-ApplyStr(n, args) == "f" \o ToString(n) \o "(" \o JoinS(args, 1) \o ")"
+ApplyStr(n, args) == IF \E i \in 1..Len(args) : args[i] \in {"!", "ERR"}      \* a poisoned argument: the function raises
+                     THEN "ERR" ELSE "f" \o ToString(n) \o "(" \o JoinS(args, 1) \o ")"
 DrawStr(d, r, pv) == "s" \o ToString(d) \o "<" \o r \o ">(" \o JoinS(pv, 1) \o ")"
 
 TInit ==
   /\ BatchInit
   /\ N = Hdr.n /\ kind = Hdr.kind /\ inp = Hdr.inp
+  \* the real model's sweep order, when the trace logs it (with the model's own total nodes appended to the graph)
+  /\ ord = (IF "order" \in DOMAIN Hdr THEN Hdr.order ELSE [i \in 1..Hdr.n |-> i])
   /\ val = Hdr.init
   /\ flag = [i \in 1..Hdr.n |-> FALSE] /\ dirty = [i \in 1..Hdr.n |-> FALSE]
-  /\ auto = TRUE /\ slots = <<>> /\ evald = {}
+  /\ auto = TRUE /\ slots = <<>> /\ evald = {} /\ raised = FALSE
 
+\* nodes whose value / flag the trace reports (the model's own total nodes, if appended, are not observed)
+ObsNode == 1..(IF "nobs" \in DOMAIN Hdr THEN Hdr.nobs ELSE Hdr.n)
 \* the observed post-state must equal the spec's post-state; all invariants hold
 Obs ==
-  /\ Chk("values_equal_spec", \A i \in Node : Ev.val[i] = Eff(val')[i])
-  /\ Chk("outdated_flags_equal_spec", \A i \in Node : Ev.outd[i] = Outd(flag')[i])
+  /\ Chk("operation_raises_iff_a_swept_node_function_raises", Ev.raised = raised')
+  /\ Chk("values_equal_spec", \A i \in ObsNode : Ev.val[i] = Eff(val')[i])
+  /\ Chk("outdated_flags_equal_spec", \A i \in ObsNode : Ev.outd[i] = Outd(flag')[i])
   /\ Chk("evaluated_exactly_the_outdated_ones_once",
-         Len(Ev.evald) = Cardinality(evald') /\ SeqToSet(Ev.evald) = evald')
+         Len(Ev.evald) = Cardinality(evald' \cap ObsNode) /\ SeqToSet(Ev.evald) = evald' \cap ObsNode)
   /\ Chk("coherent_up_to_date_nodes_hold_from_scratch_values",
-         \A i \in Node : ~Ev.outd[i] => Ev.val[i] = Fresh(val')[i])
+         \A i \in ObsNode : ~Ev.outd[i] => Ev.val[i] = Fresh(val')[i])
   /\ Chk("flag_iff_dirty", \A i \in Node : kind[i] = "c" => (flag'[i] <=> dirty'[i]))
 
 TAssign ==
@@ -39,13 +45,13 @@ TAssign ==
 TSetAuto == IsEvent("set_auto") /\ SetAuto(Ev.b) /\ Obs /\ Step
 TUpdateAll ==
   /\ IsEvent("update_all") /\ UpdateAll /\ Obs
-  /\ Chk("full_update_leaves_no_node_outdated", \A i \in Node : ~Ev.outd[i])
+  /\ Chk("full_update_leaves_no_node_outdated", Ev.raised \/ \A i \in ObsNode : ~Ev.outd[i])
   /\ Step
 TUpdateTargets ==
   /\ IsEvent("update_targets")
   /\ UpdateTargets(SeqToSet(Ev.targets)) /\ Obs
   /\ Chk("targets_and_ancestors_up_to_date",
-         \A i \in Targets(SeqToSet(Ev.targets)) : ~Ev.outd[i])
+         Ev.raised \/ \A i \in Targets(SeqToSet(Ev.targets)) \cap ObsNode : ~Ev.outd[i])
   /\ Step
 TSave == IsEvent("save") /\ Save /\ Obs /\ Step
 TRestore == IsEvent("restore") /\ Restore(Ev.slot) /\ Obs /\ Step
